@@ -15,7 +15,7 @@ func init() {
 			if tier == "thorough" {
 				// two packets: explored within a time budget (reported as not covered when exceeded)
 				for _, c := range []gosym.RunConfig{mk("netctx-read-w2", "netctx", "VerifReadCtx", 2), mk("connctx-read-w2", "connctx", "VerifReadCtx", 2)} {
-					c.BudgetSec, c.Optional = 600, true
+					c.BudgetSec, c.Optional = 300, true
 					out = append(out, c)
 				}
 			}
